@@ -15,7 +15,7 @@ import traceback
 from . import AnalysisError, REPO_DEFAULT
 from .index import Program
 from .engine import Engine
-from . import report
+from . import report, frozen
 
 PROPS = [f"C{i:02d}" for i in range(1, 21)]
 
@@ -32,6 +32,7 @@ def run_property(pid, repo, tier):
     prog = Program(repo, extra_dirs=("scripts",) if tier == "thorough" else ())
     eng = Engine(prog)
     ctx = report.Ctx(pid, eng, tier)
+    frozen.check(ctx)             # Cxx-P/PRIMITIVE: the leaf formulas the mechanism is built from (lbsa/frozen.py)
     try:
         mod.check(ctx)
         if tier == "thorough" and hasattr(mod, "check_thorough"):
